@@ -26,9 +26,10 @@ What is shown, for EVERY byte string `b`:
 * header. `Header.dec` is "extract seven fields, run the validators" (`header_dec_eq`); a header that is
   not `Valid` is rejected with `ValueError`, a short one with `IOError`, and nothing behind it is
   interpreted (`psd_read_rejects_bad_header`). The ranges are the REGENERATED tables of the source
-  (`header_valid_iff`, `header_tables`): channels 1…57 and height/width 1…300001 — `range_(1, 57)` and
-  `range_(1, 300001)` are inclusive in `validators.py`, one more than the 56 / 300000 of the format
-  description; the limits do not depend on the version.
+  (`header_valid_iff`, `header_tables`): channels 1…56 and height/width 1…300000; the limits do not depend on the
+  version. (Until repo c17f33b the header passed `range_(1, 57)` / `range_(1, 300001)` to an INCLUSIVE validator, so 57
+  channels and a side of 300001 were accepted — found by this theorem pinning the regenerated tables and by the
+  harness's one-invalid-field headers; repaired, tables regenerated, theorems re-pinned.)
 * cost. `PSD.readC` (`Model/PsdCost.lean`) is the SAME reader with a step counter (one tick per primitive
   read on the stream, per loop iteration, per nested `io.BytesIO` entered) and an allocation counter (bytes
   RETURNED by `fp.read` — a declared length larger than the remaining data returns only what is there — plus
@@ -204,13 +205,13 @@ theorem read_section_inside {b : B} {v : PSD} {p : Nat} (h : PSD.read b 0 = .ok 
 /-- the validator tables as REGENERATED from `psd/header.py` (a change of the source breaks this) -/
 theorem header_tables :
     G.headerSignature = [0x38, 0x42, 0x50, 0x53] ∧ G.headerVersions = [1, 2] ∧
-    G.channelsMin = 1 ∧ G.channelsMax = 57 ∧ G.heightMin = 1 ∧ G.heightMax = 300001 ∧
-    G.widthMin = 1 ∧ G.widthMax = 300001 ∧ G.headerDepths = [1, 8, 16, 32] ∧
+    G.channelsMin = 1 ∧ G.channelsMax = 56 ∧ G.heightMin = 1 ∧ G.heightMax = 300000 ∧
+    G.widthMin = 1 ∧ G.widthMax = 300000 ∧ G.headerDepths = [1, 8, 16, 32] ∧
     G.colorModes = [0, 1, 2, 3, 4, 7, 8, 9] := by decide
 
 theorem header_valid_iff (h : Header) :
     h.Valid ↔ h.signature = [0x38, 0x42, 0x50, 0x53] ∧ (h.version = 1 ∨ h.version = 2) ∧
-      (1 ≤ h.channels ∧ h.channels ≤ 57) ∧ (1 ≤ h.height ∧ h.height ≤ 300001) ∧ (1 ≤ h.width ∧ h.width ≤ 300001) ∧
+      (1 ≤ h.channels ∧ h.channels ≤ 56) ∧ (1 ≤ h.height ∧ h.height ≤ 300000) ∧ (1 ≤ h.width ∧ h.width ≤ 300000) ∧
       (h.depth = 1 ∨ h.depth = 8 ∨ h.depth = 16 ∨ h.depth = 32) ∧ h.colorMode ∈ [0, 1, 2, 3, 4, 7, 8, 9] := by
   obtain ⟨e1, e2, e3, e4, e5, e6, e7, e8, e9, e10⟩ := header_tables
   unfold Header.Valid
@@ -221,11 +222,11 @@ theorem header_signature_checked {h : Header} (hv : h.Valid) : h.signature = [0x
   ((header_valid_iff h).1 hv).1
 theorem header_version_checked {h : Header} (hv : h.Valid) : h.version = 1 ∨ h.version = 2 :=
   ((header_valid_iff h).1 hv).2.1
-theorem header_channels_checked {h : Header} (hv : h.Valid) : 1 ≤ h.channels ∧ h.channels ≤ 57 :=
+theorem header_channels_checked {h : Header} (hv : h.Valid) : 1 ≤ h.channels ∧ h.channels ≤ 56 :=
   ((header_valid_iff h).1 hv).2.2.1
-theorem header_height_checked {h : Header} (hv : h.Valid) : 1 ≤ h.height ∧ h.height ≤ 300001 :=
+theorem header_height_checked {h : Header} (hv : h.Valid) : 1 ≤ h.height ∧ h.height ≤ 300000 :=
   ((header_valid_iff h).1 hv).2.2.2.1
-theorem header_width_checked {h : Header} (hv : h.Valid) : 1 ≤ h.width ∧ h.width ≤ 300001 :=
+theorem header_width_checked {h : Header} (hv : h.Valid) : 1 ≤ h.width ∧ h.width ≤ 300000 :=
   ((header_valid_iff h).1 hv).2.2.2.2.1
 theorem header_depth_checked {h : Header} (hv : h.Valid) : h.depth = 1 ∨ h.depth = 8 ∨ h.depth = 16 ∨ h.depth = 32 :=
   ((header_valid_iff h).1 hv).2.2.2.2.2.1
